@@ -12,37 +12,37 @@ Local Open Scope N_scope.
    has exactly one sample with name no_hyphens(name) and labels keys+prog, and
    that sample is [sample_of] - value float(datum), type by kind, help, timestamp. *)
 Theorem C13_one_sample_each :
-  forall (F : Type) (of_int : Z -> F) (fzero : F) (c : cfg) (s : list (list (metric F))) g m ls,
-    no_dup_series of_int fzero c s ->
+  forall (F : Type) (O : fops F) (of_int : Z -> F) (fzero : F) (c : cfg) (s : list (list (metric F))) g m ls,
+    no_dup_series O of_int fzero c s ->
     In g s -> In m g -> m_kind m <> KText -> In ls (m_lvs m) -> ls_repr ls = true ->
-    let x := sample_of of_int fzero c (group_source g) m ls in
-    In x (collect of_int fzero c s) /\
-    forall y, In y (collect of_int fzero c s) ->
+    let x := sample_of O of_int fzero c (group_source g) m ls in
+    In x (collect O of_int fzero c s) /\
+    forall y, In y (collect O of_int fzero c s) ->
               s_name y = no_hyphens (m_name m) -> s_labels y = labels_of c m ls -> y = x.
 Proof. exact @one_sample_each. Qed.
 
 (* Conversely nothing else is exported: every sample is [sample_of] a
    representable label set of a non-text metric of the store. *)
 Theorem C13_every_sample_has_origin :
-  forall (F : Type) (of_int : Z -> F) (fzero : F) (c : cfg) (s : list (list (metric F))) x,
-    In x (collect of_int fzero c s) <->
+  forall (F : Type) (O : fops F) (of_int : Z -> F) (fzero : F) (c : cfg) (s : list (list (metric F))) x,
+    In x (collect O of_int fzero c s) <->
     exists g m ls, In g s /\ In m g /\ m_kind m <> KText /\ In ls (m_lvs m) /\ ls_repr ls = true /\
-                   x = sample_of of_int fzero c (group_source g) m ls.
+                   x = sample_of O of_int fzero c (group_source g) m ls.
 Proof. exact @in_collect. Qed.
 
 (* the sample of a label set: name, labels, type, value *)
 Theorem C13_sample_fields :
-  forall (F : Type) (of_int : Z -> F) (fzero : F) c src (m : metric F) ls,
-    let x := sample_of of_int fzero c src m ls in
+  forall (F : Type) (O : fops F) (of_int : Z -> F) (fzero : F) c src (m : metric F) ls,
+    let x := sample_of O of_int fzero c src m ls in
     s_name x = no_hyphens (m_name m) /\
     s_labels x = (if omit_prog c then [] else [(str_prog, m_prog m)]) ++ zip_labels [] (m_keys m) (ls_vals ls) /\
     s_typ x = ptype_of_kind (m_kind m) /\
     (forall z, ls_val ls = DInt z -> s_val x = SV (of_int z)) /\
     (forall f, ls_val ls = DFloat f -> s_val x = SV f) /\
     (forall d, m_kind m = KHistogram -> ls_val ls = DBuckets d ->
-               s_val x = SH (b_count d) (b_sum d) (cum_by_max d)).
+               s_val x = SH (b_count d) (b_sum d) (cum_by_max O d)).
 Proof.
-  intros F of_int fzero c src m ls x. repeat split.
+  intros F O of_int fzero c src m ls x. repeat split.
   - intros z E. cbn. rewrite E. destruct (m_kind m); reflexivity.
   - intros f E. cbn. rewrite E. destruct (m_kind m); reflexivity.
   - intros d K E. cbn. rewrite K, E. reflexivity.
@@ -53,32 +53,71 @@ Theorem C13_type_by_kind :
   ptype_of_kind KTimer = PGauge /\ ptype_of_kind KHistogram = PHistogram.
 Proof. repeat split. Qed.
 
-(* histogram samples: cumulative counts never decrease in bound order *)
+(* histogram samples: GetBucketsCumByMax sorts the datum's buckets by upper
+   bound, whatever their order in the store, and accumulates in that order.
+   The exported buckets are exactly the datum's buckets ... *)
+Theorem C13_hist_buckets_are_the_datums :
+  forall (F : Type) (O : fops F) (d : @bdatum F) x,
+    In x (map fst (cum_by_max O d)) <-> In x (bounds d).
+Proof. exact @cum_bounds_perm. Qed.
+
+(* ... listed in non-decreasing bound order (for a comparison that is total on
+   the bounds, i.e. no NaN bound) ... *)
+Theorem C13_hist_bounds_sorted :
+  forall (F : Type) (O : fops F) (d : @bdatum F),
+    (forall a b, f_leb O a b = false -> f_leb O b a = true) ->
+    adj_sorted O (map fst (cum_by_max O d)).
+Proof. exact @cum_by_max_sorted. Qed.
+
+(* ... with cumulative counts that never decrease ... *)
 Theorem C13_hist_cumulative_monotone :
-  forall (F : Type) (d : @bdatum F) i a b,
-    nth_error (map snd (cum_by_max d)) i = Some a ->
-    nth_error (map snd (cum_by_max d)) (S i) = Some b -> a <= b.
+  forall (F : Type) (O : fops F) (d : @bdatum F) i a b,
+    nth_error (map snd (cum_by_max O d)) i = Some a ->
+    nth_error (map snd (cum_by_max O d)) (S i) = Some b -> a <= b.
 Proof. exact @cum_monotone. Qed.
 
-(* for every datum reachable by observations (C21), the last exported bucket
-   carries the count; for a declared histogram its bound is +Inf *)
+(* ... and, for every datum reachable by observations (any range order, C21),
+   the last exported bucket carries the count. *)
 Theorem C13_hist_inf_equals_count :
   forall (F : Type) (O : fops F) rs vs dflt,
     let d := observe_all O vs (make_buckets O rs) in
-    snd (last (cum_by_max d) dflt) = b_count d.
+    snd (last (cum_by_max O d) dflt) = b_count d.
 Proof. exact @inf_bucket_is_count. Qed.
+
+(* for a declared histogram with ascending boundaries the sort changes
+   nothing and the last bound is +Inf *)
+Theorem C13_hist_sorted_is_slice_order :
+  forall (F : Type) (O : fops F) (d : @bdatum F),
+    adj_sorted O (bounds d) -> cum_by_max O d = cum_in_slice_order d.
+Proof. exact @cum_sorted_is_slice_order. Qed.
 
 Theorem C13_hist_last_bound_is_inf :
   forall (F : Type) (O : fops F) bs rs vs dflt,
-    f_is_pinf O (f_inf O) = true -> make_ranges O bs = Some rs ->
+    f_is_pinf O (f_inf O) = true -> make_ranges O bs = Some rs -> adj_sorted O (map r_max rs) ->
     let d := observe_all O vs (make_buckets O rs) in
-    fst (last (cum_by_max d) dflt) = f_inf O.
+    fst (last (cum_by_max O d) dflt) = f_inf O.
 Proof. exact @inf_bucket_bound. Qed.
+
+(* accumulating in SLICE order (a plausible "optimisation") is wrong as soon as
+   the store holds ranges that do not ascend: ranges (2,4], (1,2], (0,1] with
+   +Inf appended, observations 0.5-like value 0 three times and 3 once.  Slice
+   order reports 4 observations <= 1; the sorted computation reports 0. *)
+Theorem C13_cum_slice_order_refuted :
+  exists (d : @bdatum xf),
+    (exists rs vs, d = observe_all xops vs (make_buckets xops rs)) /\
+    cum_by_max xops d = [(XFin 1, 0); (XFin 2, 0); (XFin 4, 4); (XPosInf, 4)] /\
+    cum_in_slice_order d = [(XFin 4, 4); (XFin 2, 4); (XFin 1, 4); (XPosInf, 4)].
+Proof.
+  eexists. split.
+  - exists [Build_range (XFin 2) (XFin 4); Build_range (XFin 1) (XFin 2); Build_range (XFin 0) (XFin 1)],
+           [XFin 0; XFin 0; XFin 0; XFin 3]. reflexivity.
+  - split; reflexivity.
+Qed.
 
 (* timestamps appear exactly when enabled *)
 Theorem C13_ts_iff_enabled :
-  forall (F : Type) (of_int : Z -> F) (fzero : F) c (s : list (list (metric F))) x,
-    In x (collect of_int fzero c s) -> (s_ts x <> None <-> emit_ts c = true).
+  forall (F : Type) (O : fops F) (of_int : Z -> F) (fzero : F) c (s : list (list (metric F))) x,
+    In x (collect O of_int fzero c s) -> (s_ts x <> None <-> emit_ts c = true).
 Proof. exact @ts_iff_enabled. Qed.
 
 (* unrepresentable label sets are left out without touching anything else:
@@ -86,15 +125,15 @@ Proof. exact @ts_iff_enabled. Qed.
    whose "defined at" source is taken from the first metric of the name that has
    a label set, representable or not; exactly when that source is unaffected) *)
 Theorem C13_skip_is_local :
-  forall (F : Type) (of_int : Z -> F) (fzero : F) c (s : list (list (metric F))),
-    map (@strip_help F) (collect of_int fzero c (map (map (@drop_unrepr_metric F)) s)) =
-    map (@strip_help F) (collect of_int fzero c s).
+  forall (F : Type) (O : fops F) (of_int : Z -> F) (fzero : F) c (s : list (list (metric F))),
+    map (@strip_help F) (collect O of_int fzero c (map (map (@drop_unrepr_metric F)) s)) =
+    map (@strip_help F) (collect O of_int fzero c s).
 Proof. exact @skip_is_local. Qed.
 
 Theorem C13_skip_is_local_exact :
-  forall (F : Type) (of_int : Z -> F) (fzero : F) c (s : list (list (metric F))),
+  forall (F : Type) (O : fops F) (of_int : Z -> F) (fzero : F) c (s : list (list (metric F))),
     Forall (fun g => group_source (map (@drop_unrepr_metric F) g) = group_source g) s ->
-    collect of_int fzero c (map (map (@drop_unrepr_metric F)) s) = collect of_int fzero c s.
+    collect O of_int fzero c (map (map (@drop_unrepr_metric F)) s) = collect O of_int fzero c s.
 Proof. exact @skip_is_local_exact. Qed.
 
 (* ---- witness store: counter foo by a, label sets ok1, bad (unrepresentable), ok2 ---- *)
@@ -111,14 +150,15 @@ Definition w_gauge : metric N :=
 Definition w_store : list (list (metric N)) := [[w_metric]; [w_gauge]].
 Definition w_cfg : cfg := {| omit_prog := false; emit_ts := true |}.
 Definition w_of_int (z : Z) : N := Z.to_N z.   (* any conversion will do here *)
+Definition w_ops : fops N := {| f_leb := N.leb; f_ltb := N.ltb; f_add := N.add; f_zero := 0; f_inf := 1000; f_is_pinf := N.eqb 1000 |}.
 
 (* the unchanged Collect abandons the rest of the metric after an
    unrepresentable label set: ok2 is representable and is not exported *)
 Theorem C13_skip_abandons_rest_refuted :
   exists (c : cfg) (s : list (list (metric N))) g m ls,
     In g s /\ In m g /\ m_kind m <> KText /\ In ls (m_lvs m) /\ ls_repr ls = true /\
-    ~ In (sample_of w_of_int 0 c (group_source g) m ls) (collect_old w_of_int 0 c s) /\
-    In (sample_of w_of_int 0 c (group_source g) m ls) (collect w_of_int 0 c s).
+    ~ In (sample_of w_ops w_of_int 0 c (group_source g) m ls) (collect_old w_ops w_of_int 0 c s) /\
+    In (sample_of w_ops w_of_int 0 c (group_source g) m ls) (collect w_ops w_of_int 0 c s).
 Proof.
   exists w_cfg, w_store, [w_metric], w_metric, (w_ls [111; 107; 50] 3 true).
   split; [left; reflexivity|]. split; [left; reflexivity|]. split; [discriminate|].
@@ -129,13 +169,13 @@ Qed.
 
 (* non-vacuity: the witness store satisfies the hypothesis of C13_one_sample_each
    and exports three samples (two of foo, one of bar_b) *)
-Example C13_witness_no_dup : no_dup_series w_of_int 0 w_cfg w_store.
+Example C13_witness_no_dup : no_dup_series w_ops w_of_int 0 w_cfg w_store.
 Proof.
   unfold no_dup_series. cbn.
   repeat constructor; cbn; intuition discriminate.
 Qed.
 Example C13_witness_exports :
-  map (fun x => (s_name x, s_typ x, s_val x, s_ts x)) (collect w_of_int 0 w_cfg w_store) =
+  map (fun x => (s_name x, s_typ x, s_val x, s_ts x)) (collect w_ops w_of_int 0 w_cfg w_store) =
   [ ([102; 111; 111], PCounter, SV 1, Some 5%Z); ([102; 111; 111], PCounter, SV 3, Some 5%Z);
     ([98; 97; 114; 95; 98], PGauge, SV 4607182418800017408, Some 0%Z) ].
 Proof. reflexivity. Qed.
@@ -144,7 +184,11 @@ Print Assumptions C13_one_sample_each.
 Print Assumptions C13_every_sample_has_origin.
 Print Assumptions C13_sample_fields.
 Print Assumptions C13_type_by_kind.
+Print Assumptions C13_hist_buckets_are_the_datums.
+Print Assumptions C13_hist_bounds_sorted.
 Print Assumptions C13_hist_cumulative_monotone.
+Print Assumptions C13_hist_sorted_is_slice_order.
+Print Assumptions C13_cum_slice_order_refuted.
 Print Assumptions C13_hist_inf_equals_count.
 Print Assumptions C13_hist_last_bound_is_inf.
 Print Assumptions C13_ts_iff_enabled.
